@@ -115,6 +115,8 @@ def oracle(case, line, P):
     inflight = {}            # tracker id -> event in flight
     pend_start = pend_comp = ever_start = ever_comp = False
     stats = (0, 0, 0)
+    raw = (0, 0, 0)
+    base = (0, 0)
     prev = None
     for i, (op, seg) in enumerate(zip(ops, segs)):
         try:
@@ -149,7 +151,14 @@ def oracle(case, line, P):
             pend_start = pend_comp = False
         elif o == "st":
             f = op.split(":")
-            stats = (int(f[1]), int(f[2]), int(f[3]))
+            raw = (int(f[1]), int(f[2]), int(f[3]))
+            stats = (max(raw[0] - base[0], 0), max(raw[1] - base[1], 0), raw[2])
+        elif o == "in":
+            group_of[len(group_of)] = int(op.split(":")[1])
+        elif o == "bl":
+            f = op.split(":")
+            base = (int(f[1]), int(f[2]))
+            stats = (max(raw[0] - base[0], 0), max(raw[1] - base[1], 0), raw[2])
         for t in st["trs"]:
             if not (P["trk_min_normal_interval"] <= t["ni"] <= P["trk_max_normal_interval"] and
                     P["trk_min_min_interval"] <= t["mi"] <= P["trk_max_min_interval"]):
